@@ -21,15 +21,15 @@ def bool? (s : String) : Option Bool :=
 def showNode (n : Node) : String :=
   s!"{n.tag}.{n.addr}.{if n.bad then 1 else 0}.{n.rtt}"
 
-def showBucket (b : Bucket) : String :=
-  showBits b.pfx ++ "/" ++ toString b.cap ++ "=" ++ ",".intercalate (b.nodes.map showNode)
-
 /-- insertion sort on strings / naturals for canonical output -/
 def insSorted {α : Type} (lt : α → α → Bool) (x : α) : List α → List α
   | [] => [x]
   | y :: ys => if lt y x then y :: insSorted lt x ys else x :: y :: ys
 
 def sortBy {α : Type} (lt : α → α → Bool) (l : List α) : List α := l.foldr (insSorted lt) []
+
+def showBucket (b : Bucket) : String :=
+  showBits b.pfx ++ "/" ++ toString b.cap ++ "=" ++ ",".intercalate ((sortBy (fun a b => a.tag < b.tag) b.nodes).map showNode)
 
 def step (st : St) (toks : List String) : St × String :=
   let bad : St × String := (st, "bad-op")
@@ -58,11 +58,12 @@ def step (st : St) (toks : List String) : St × String :=
     | _, _, _, _ => bad
   | ["rt.status", id] =>
     match bits? id with
-    | some id => (st, match st.rt.get id with | some x => toString x.status | none => "none")
+    | some id => (st, match st.rt.get id with | some x => (if x.bad then "bad" else "live") | none => "none")
     | none => bad
   | ["node.status", f, rc] =>
     match f.toNat?, bool? rc with
-    | some f, some rc => (st, toString ({ id := [], failed := f, recent := rc, rtt := 0, addr := 0, tag := 0 } : Node).status)
+    | some f, some rc =>
+      (st, if ({ id := [], failed := f, recent := rc, rtt := 0, addr := 0, tag := 0 } : Node).bad then "bad" else "live")
     | _, _ => bad
   | ["rt.closest", target, k, excl] =>
     match bits? target, (if k == "default" then some Gen.closestDefaultK else k.toNat?) with
